@@ -345,6 +345,9 @@ fn run_order(n: usize, order: &[usize], ctx: &Ctx, fstep: usize, wstep: usize) -
                 if use_live {
                     rep.add_extra("cases_with_tables_reweighted_in_place", 1);
                 }
+                if rep.transitions % 5 == 2 {
+                    crate::props::bddutil::interloper(rep.transitions as usize / 5);
+                }
                 if let Some((alg, what)) = check_case_live(&b, &c, &mut ev, if use_live && !crate::core::disabled("live") { Some(&mut live) } else { None }) {
                     rep.violation(format!("optimum:{}", alg), format!("{} on f={:#x} order {:?} query {:?}: {}", alg, f, order, q, what), case_json(&c, &alg));
                 }
